@@ -122,6 +122,14 @@ Definition jv_result (r : result) : jv :=
       end
   end.
 
+(* a history of calls on ONE fresh Process object: [outcomes; whole access log; gone at the end?] *)
+Definition run_hist_case (y : layout) (ps : list prog) (kind : nat) (v : option nat) (half : bool) (denied : list nat)
+                         (ov : list (string * nat)) (longname guess : bool) : jv :=
+  let w := mk_world y kind v half denied ov longname guess in
+  let rs := run_hist w ps st0 in
+  let s := last (map snd rs) st0 in
+  JL [ JL (map (fun x => jv_result (fst x)) rs); JL (map (jv_access y) (rev (s_log s))); jbool (gone w s) ].
+
 (* one call of script [p] on a fresh Process object in the given world:
    [outcome; access log; gone at the end?; outcome allowed by the property?] *)
 Definition run_case (y : layout) (p : prog) (kind : nat) (v : option nat) (half : bool) (denied : list nat)
